@@ -5,6 +5,7 @@
 #
 """CMD_CACHE_CREATE CLI command entry point."""
 
+import io
 import logging
 import math
 import cbor2
@@ -17,6 +18,7 @@ CACHE_CREATE_CMD = "cache_create"
 CACHE_CREATE_FROM_PAYLOADS_CMD = "from_payloads"
 CACHE_CREATE_FROM_ENVELOPE_CMD = "from_envelope"
 CACHE_MERGE_CMD = "merge"
+SUIT_ENVELOPE_TAG = 107
 
 log = logging.getLogger(__name__)
 
@@ -234,8 +236,14 @@ class CacheFromEnvelope:
                                  envelopes
         """
         try:
-            envelope = cbor2.loads(envelope_data)
+            envelope_stream = io.BytesIO(envelope_data)
+            envelope = cbor2.load(envelope_stream)
         except Exception:
+            raise GeneratorError("The provided envelope/dependency envelope is not a valid envelope!")
+
+        # Only a complete SUIT envelope can be parsed hierarchically - anything else (other tag, trailing bytes)
+        # would be re-encoded and silently lose data
+        if envelope_stream.read(1) or not isinstance(envelope, cbor2.CBORTag) or envelope.tag != SUIT_ENVELOPE_TAG:
             raise GeneratorError("The provided envelope/dependency envelope is not a valid envelope!")
 
         if isinstance(envelope, cbor2.CBORTag) and isinstance(envelope.value, Mapping):
